@@ -1,1 +1,5 @@
-/-! C09 — property theorems (stub; no obligations yet) -/
+import Ypv.Spec.Edit
+/-! C09 — property theorems (under construction) -/
+namespace Ypv.C09
+theorem placeholder : deletePositional (.scalar none .null) [] = .scalar none .null := rfl
+end Ypv.C09
